@@ -83,7 +83,7 @@ Inductive ends (cf : config) : outcome -> list output -> mstate -> Prop :=
     ends cf (fatal_outcome (d_rc d) (option_map e_cmd (find_entry (d_seq d) (b_out (m_b m)))))
          (m_tr m ++ [ORecv d]) m
 | E_need : forall m, ends cf NeedEvent (m_tr m) m
-| E_diverge : forall tr m, ends cf SeqSearchDiverges tr m.
+| E_diverge : forall m, pre cf (m_k m) (m_b m) = None -> ends cf SeqSearchDiverges (m_tr m) m.
 
 (* ------------------------------------------------------------------------------------------------ *)
 (* The phases of [run] as sequences of small steps                                                    *)
@@ -237,4 +237,1010 @@ Proof.
       specialize (IH (done ++ [e]) k q qd cbs tr0). cbn zeta in IH. destruct IH as [IH1 IH2].
       rewrite !app_cons_assoc in IH1. rewrite !app_cons_assoc in IH2.
       split; [exact IH1|exact IH2].
+Qed.
+
+Lemma pre_refines : forall cf k b p tr0,
+  pre cf k b = Some p ->
+  star cf (MS tr0 k b) (MS (tr0 ++ p_outputs p) (p_conn p) (p_state p)).
+Proof.
+  intros cf k [q qd out cbs] p tr0 Hp. unfold pre in Hp. cbn [b_queue b_queued b_out b_cbs] in Hp.
+  destruct (fill cf q qd k out) as [f|] eqn:Hf; [|discriminate Hp].
+  inversion Hp; subst p; clear Hp. cbn [p_outputs p_conn p_state].
+  eapply star_trans; [apply (fill_refines cf q qd k out f cbs tr0 Hf)|].
+  eapply star_trans; [apply callbacks_refine|].
+  eapply star_cast; [apply star_one; apply A_select|].
+  rewrite <- !app_assoc. reflexivity.
+Qed.
+
+Lemma post_refines : forall cf ev k b os res tr0,
+  post cf ev k b = (os, res) ->
+  match res with
+  | Continue k' b' => star cf (MS tr0 k b) (MS (tr0 ++ os) k' b')
+  | Stop oc k' => exists m, star cf (MS tr0 k b) m /\ ends cf oc (tr0 ++ os) m
+  end.
+Proof.
+  intros cf ev k [q qd out cbs] os res tr0 Hp. unfold post in Hp.
+  cbn [b_queue b_queued b_out b_cbs] in Hp.
+  set (k1 := {| k_seq := k_seq k; k_ntx := k_ntx k; k_now := ev_time ev; k_buf := k_buf k ++ ev_data ev |}).
+  assert (Hev : astep cf (MS tr0 k (BS q qd out cbs)) (MS tr0 k1 (BS q qd out cbs))) by apply A_event.
+  pose proof (recv_refines cf (k_buf k ++ ev_data ev) k1 out cbs q qd tr0 eq_refl) as Hr.
+  cbn zeta in Hr. destruct Hr as [Hr1 Hr2].
+  remember (recv_loop (k_buf k ++ ev_data ev) out cbs) as r eqn:Er.
+  destruct (r_fatal r) as [[rc c]|] eqn:Hfat.
+  - inversion Hp; subst os res; clear Hp.
+    destruct (Hr2 rc c eq_refl) as (tr1 & out1 & cbs1 & d & buf' & Hst & Htr & Hnok & Hnre & Hrc & Hc).
+    exists (MS tr1 (set_buf k1 (d :: buf')) (BS q qd out1 cbs1)). split.
+    + eapply star_step; [exact Hev|exact Hst].
+    + rewrite Htr, Hrc, Hc.
+      apply (E_fatal cf (MS tr1 (set_buf k1 (d :: buf')) (BS q qd out1 cbs1)) d buf');
+        [reflexivity|exact Hnok|exact Hnre].
+  - specialize (Hr1 eq_refl).
+    pose proof (scan_refines cf (r_out r) [] (set_buf k1 []) q qd (r_cbs r) (tr0 ++ r_outputs r)) as Hs.
+    cbn zeta in Hs. cbn [set_buf k1 k_now k_ntx k_seq k_buf app] in Hs. destruct Hs as [Hs1 Hs2].
+    remember (scan cf (ev_time ev) (k_ntx k) (r_out r)) as s eqn:Es.
+    assert (Hall : star cf (MS tr0 k (BS q qd out cbs))
+                        (MS (tr0 ++ r_outputs r ++ s_outputs s)
+                            {| k_seq := k_seq k; k_ntx := s_ntx s; k_now := ev_time ev; k_buf := [] |}
+                            (BS q qd (s_out s) (r_cbs r)))).
+    { eapply star_step; [exact Hev|]. eapply star_trans; [exact Hr1|].
+      eapply star_cast; [exact Hs1|]. rewrite <- app_assoc. reflexivity. }
+    destruct (s_timeout s) as [c|] eqn:Htm.
+    + inversion Hp; subst os res; clear Hp.
+      destruct (Hs2 c eq_refl) as (pre0 & e & post0 & Heq & Hce & Hdl & Htr).
+      eexists. split; [exact Hall|]. subst c.
+      apply (E_timeout cf (MS (tr0 ++ r_outputs r ++ s_outputs s)
+                              {| k_seq := k_seq k; k_ntx := s_ntx s; k_now := ev_time ev; k_buf := [] |}
+                              (BS q qd (s_out s) (r_cbs r))) pre0 e post0); assumption.
+    + inversion Hp; subst os res; clear Hp. exact Hall.
+Qed.
+
+Lemma run_unfold : forall cf evs k b,
+  run cf evs k b =
+  if running b then
+    match pre cf k b with
+    | None => ([], SeqSearchDiverges, k, evs)
+    | Some p =>
+        match evs with
+        | [] => (p_outputs p, NeedEvent, p_conn p, [])
+        | ev :: evs' =>
+            match post cf ev (p_conn p) (p_state p) with
+            | (os, Stop oc k') => (p_outputs p ++ os, oc, k', evs')
+            | (os, Continue k' b') =>
+                match run cf evs' k' b' with
+                | (tr, oc, k'', rest) => (p_outputs p ++ os ++ tr, oc, k'', rest)
+                end
+            end
+        end
+    end
+  else ([], Returned, k, evs).
+Proof. intros cf evs k b. destruct evs; reflexivity. Qed.
+
+(* the big-step function is a sequence of small steps followed by one of the endings *)
+Theorem run_refines : forall cf evs k b tr0 tr oc k' rest,
+  run cf evs k b = (tr, oc, k', rest) ->
+  exists m, star cf (MS tr0 k b) m /\ ends cf oc (tr0 ++ tr) m.
+Proof.
+  intros cf evs. induction evs as [|ev evs IH]; intros k b tr0 tr oc k' rest Hrun;
+    rewrite run_unfold in Hrun.
+  - destruct (running b) eqn:Hrn.
+    + destruct (pre cf k b) as [p|] eqn:Hp.
+      * inversion Hrun; subst tr oc k' rest; clear Hrun.
+        exists (MS (tr0 ++ p_outputs p) (p_conn p) (p_state p)). split.
+        -- apply pre_refines. exact Hp.
+        -- apply (E_need cf (MS (tr0 ++ p_outputs p) (p_conn p) (p_state p))).
+      * inversion Hrun; subst tr oc k' rest; clear Hrun. rewrite app_nil_r.
+        exists (MS tr0 k b). split; [apply star_refl|apply (E_diverge cf (MS tr0 k b)); exact Hp].
+    + inversion Hrun; subst tr oc k' rest; clear Hrun. rewrite app_nil_r.
+      exists (MS tr0 k b). split; [apply star_refl|]. apply (E_returned cf (MS tr0 k b)). exact Hrn.
+  - destruct (running b) eqn:Hrn.
+    + destruct (pre cf k b) as [p|] eqn:Hp.
+      * pose proof (pre_refines cf k b p tr0 Hp) as Hpre.
+        destruct (post cf ev (p_conn p) (p_state p)) as [os res] eqn:Hpost.
+        pose proof (post_refines cf ev (p_conn p) (p_state p) os res (tr0 ++ p_outputs p) Hpost) as Hpo.
+        destruct res as [k1 b1|oc1 k1].
+        -- destruct (run cf evs k1 b1) as [[[tr2 oc2] k2] rest2] eqn:Hrun2.
+           inversion Hrun; subst tr oc k' rest; clear Hrun.
+           destruct (IH k1 b1 ((tr0 ++ p_outputs p) ++ os) tr2 oc2 k2 rest2 Hrun2) as (m & Hst & Hend).
+           exists m. split.
+           ++ eapply star_trans; [exact Hpre|]. eapply star_trans; [exact Hpo|exact Hst].
+           ++ rewrite <- !app_assoc in Hend. exact Hend.
+        -- inversion Hrun; subst tr oc k' rest; clear Hrun.
+           destruct Hpo as (m & Hst & Hend). exists m. split.
+           ++ eapply star_trans; [exact Hpre|exact Hst].
+           ++ rewrite <- app_assoc in Hend. exact Hend.
+      * inversion Hrun; subst tr oc k' rest; clear Hrun. rewrite app_nil_r.
+        exists (MS tr0 k b). split; [apply star_refl|apply (E_diverge cf (MS tr0 k b)); exact Hp].
+    + inversion Hrun; subst tr oc k' rest; clear Hrun. rewrite app_nil_r.
+      exists (MS tr0 k b). split; [apply star_refl|]. apply (E_returned cf (MS tr0 k b)). exact Hrn.
+Qed.
+
+(* ------------------------------------------------------------------------------------------------ *)
+(* Part 2: counting lemmas                                                                            *)
+(* ------------------------------------------------------------------------------------------------ *)
+
+Definition ind (b : bool) : nat := if b then 1%nat else 0%nat.
+
+Lemma occurrences_cons : forall c x l, occurrences c (x :: l) = (ind (Z.eqb x c) + occurrences c l)%nat.
+Proof.
+  intros c x l. unfold occurrences. cbn [count_occ].
+  destruct (Z.eq_dec x c) as [E|E].
+  - subst x. rewrite Z.eqb_refl. reflexivity.
+  - apply Z.eqb_neq in E. rewrite E. reflexivity.
+Qed.
+
+Lemma occurrences_nil : forall c, occurrences c [] = 0%nat.
+Proof. reflexivity. Qed.
+
+Lemma occurrences_app : forall c l l', occurrences c (l ++ l') = (occurrences c l + occurrences c l')%nat.
+Proof. intros c l l'. unfold occurrences. apply count_occ_app. Qed.
+
+Lemma occurrences_In : forall c l, In c l <-> (1 <= occurrences c l)%nat.
+Proof. intros c l. unfold occurrences. rewrite (count_occ_In Z.eq_dec). lia. Qed.
+
+Lemma occurrences_notin : forall c l, ~ In c l <-> occurrences c l = 0%nat.
+Proof. intros c l. unfold occurrences. apply count_occ_not_In. Qed.
+
+Lemma n_callbacks_snoc : forall c tr o,
+  n_callbacks c (tr ++ [o]) = (n_callbacks c tr + ind (is_callback_of c o))%nat.
+Proof.
+  intros c tr o. unfold n_callbacks. rewrite filter_app, app_length. cbn [filter].
+  destruct (is_callback_of c o); reflexivity.
+Qed.
+
+Lemma n_sends_snoc : forall c tr o,
+  n_sends c (tr ++ [o]) = (n_sends c tr + ind (is_send_of c o))%nat.
+Proof.
+  intros c tr o. unfold n_sends. rewrite filter_app, app_length. cbn [filter].
+  destruct (is_send_of c o); reflexivity.
+Qed.
+
+Lemma n_sends_app : forall c tr tr', n_sends c (tr ++ tr') = (n_sends c tr + n_sends c tr')%nat.
+Proof. intros c tr tr'. unfold n_sends. rewrite filter_app, app_length. reflexivity. Qed.
+
+Lemma n_sends_zero_notin : forall c tr, n_sends c tr = 0%nat ->
+  forall tx s t, ~ In (OSend tx c s t) tr.
+Proof.
+  intros c tr H tx s t Hin. unfold n_sends in H.
+  assert (Hf : In (OSend tx c s t) (filter (is_send_of c) tr)).
+  { apply filter_In. split; [exact Hin|]. cbn. apply Z.eqb_refl. }
+  destruct (filter (is_send_of c) tr); [contradiction|discriminate H].
+Qed.
+
+(* entries *)
+Lemma find_entry_some : forall s out e, find_entry s out = Some e -> In e out /\ e_seq e = s.
+Proof.
+  intros s out. induction out as [|a out IH]; intros e H; cbn [find_entry] in H.
+  - discriminate H.
+  - destruct (e_seq a =? s) eqn:E.
+    + inversion H; subst a. apply Z.eqb_eq in E. split; [left; reflexivity|exact E].
+    + destruct (IH e H) as [H1 H2]. split; [right; exact H1|exact H2].
+Qed.
+
+Lemma find_entry_none : forall s out, find_entry s out = None -> forall e, In e out -> e_seq e <> s.
+Proof.
+  intros s out. induction out as [|a out IH]; intros H e Hin; cbn [find_entry] in H.
+  - contradiction.
+  - destruct (e_seq a =? s) eqn:E; [discriminate H|]. apply Z.eqb_neq in E.
+    destruct Hin as [Ha|Hin]; [subst a; exact E|apply IH; assumption].
+Qed.
+
+Lemma remove_entry_In : forall s out e, In e (remove_entry s out) -> In e out.
+Proof.
+  intros s out. induction out as [|a out IH]; intros e H; cbn [remove_entry] in H.
+  - contradiction.
+  - destruct (e_seq a =? s).
+    + right; exact H.
+    + destruct H as [H|H]; [left; exact H|right; apply IH; exact H].
+Qed.
+
+Lemma remove_entry_seq : forall s out e,
+  NoDup (map e_seq out) -> In e (remove_entry s out) -> e_seq e <> s.
+Proof.
+  intros s out. induction out as [|a out IH]; intros e Hnd H; cbn [remove_entry] in H.
+  - contradiction.
+  - cbn [map] in Hnd. inversion Hnd as [|x l Hnotin Hnd']; subst x l.
+    destruct (e_seq a =? s) eqn:E.
+    + apply Z.eqb_eq in E. intros Heq. apply Hnotin. rewrite E, <- Heq. apply in_map. exact H.
+    + destruct H as [H|H].
+      * subst a. apply Z.eqb_neq in E. exact E.
+      * apply IH; assumption.
+Qed.
+
+Lemma remove_entry_seqs_nodup : forall s out, NoDup (map e_seq out) -> NoDup (map e_seq (remove_entry s out)).
+Proof.
+  intros s out. induction out as [|a out IH]; intros Hnd; cbn [remove_entry].
+  - exact Hnd.
+  - cbn [map] in Hnd. inversion Hnd as [|x l Hnotin Hnd']; subst x l.
+    destruct (e_seq a =? s).
+    + exact Hnd'.
+    + cbn [map]. constructor.
+      * intros Hin. apply Hnotin. apply in_map_iff in Hin. destruct Hin as (e & He & Hin).
+        apply in_map_iff. exists e. split; [exact He|]. apply (remove_entry_In s). exact Hin.
+      * apply IH. exact Hnd'.
+Qed.
+
+Lemma remove_entry_occ : forall c s out e,
+  find_entry s out = Some e ->
+  occurrences c (map e_cmd out) = (ind (Z.eqb (e_cmd e) c) + occurrences c (map e_cmd (remove_entry s out)))%nat.
+Proof.
+  intros c s out. induction out as [|a out IH]; intros e H; cbn [find_entry remove_entry] in *.
+  - discriminate H.
+  - cbn [map]. rewrite occurrences_cons. destruct (e_seq a =? s).
+    + inversion H; subst a. reflexivity.
+    + cbn [map]. rewrite occurrences_cons. rewrite (IH e H). lia.
+Qed.
+
+Lemma remove_entry_length : forall s out, (length (remove_entry s out) <= length out)%nat.
+Proof.
+  intros s out. induction out as [|a out IH]; cbn [remove_entry length].
+  - lia.
+  - destruct (e_seq a =? s); cbn [length]; lia.
+Qed.
+
+Lemma map_bump_cmd : forall pre e post now,
+  map e_cmd (pre ++ bump e now :: post) = map e_cmd (pre ++ e :: post).
+Proof. intros. rewrite !map_app. reflexivity. Qed.
+
+Lemma map_bump_seq : forall pre e post now,
+  map e_seq (pre ++ bump e now :: post) = map e_seq (pre ++ e :: post).
+Proof. intros. rewrite !map_app. reflexivity. Qed.
+
+Lemma in_bump : forall pre e post now x,
+  In x (pre ++ bump e now :: post) -> x = bump e now \/ (In x (pre ++ e :: post) /\ x <> e) \/ In x (pre ++ post).
+Proof.
+  intros pre e post now x H. apply in_app_or in H. destruct H as [H|[H|H]].
+  - right. right. apply in_or_app. left. exact H.
+  - left. symmetry. exact H.
+  - right. right. apply in_or_app. right. exact H.
+Qed.
+
+(* injectivity on a list without duplicates under f *)
+Lemma nodup_map_inj : forall {A} (f : A -> Z) l a b,
+  NoDup (map f l) -> In a l -> In b l -> f a = f b -> a = b.
+Proof.
+  intros A f l. induction l as [|x l IH]; intros a b Hnd Ha Hb Hf.
+  - contradiction.
+  - cbn [map] in Hnd. inversion Hnd as [|y l' Hnotin Hnd']; subst y l'.
+    destruct Ha as [Ha|Ha]; destruct Hb as [Hb|Hb].
+    + subst; reflexivity.
+    + subst x. exfalso. apply Hnotin. rewrite Hf. apply in_map. exact Hb.
+    + subst x. exfalso. apply Hnotin. rewrite <- Hf. apply in_map. exact Ha.
+    + apply IH; assumption.
+Qed.
+
+(* a list equal to something with a last element *)
+Lemma snoc_split : forall {A} (tr : list A) o pre x post,
+  tr ++ [o] = pre ++ x :: post ->
+  (post = [] /\ pre = tr /\ x = o) \/ (exists post', post = post' ++ [o] /\ tr = pre ++ x :: post').
+Proof.
+  intros A tr o pre x post H.
+  destruct (@exists_last _ (x :: post)) as (l' & a & Hl); [discriminate|].
+  destruct post as [|y post].
+  - left. change (pre ++ [x]) with (pre ++ [x]) in H. apply app_inj_tail in H. destruct H as [H1 H2].
+    repeat split; congruence.
+  - right. destruct (@exists_last _ (y :: post)) as (p' & b & Hp); [discriminate|].
+    rewrite Hp in H. exists p'. rewrite app_comm_cons in H. rewrite app_assoc in H.
+    apply app_inj_tail in H. destruct H as [H1 H2]. subst b. split; [exact Hp|exact H1].
+Qed.
+
+(* ------------------------------------------------------------------------------------------------ *)
+(* Part 3: the invariant of a call (on the call's own trace)                                          *)
+(* ------------------------------------------------------------------------------------------------ *)
+
+(* where each command instance is: called back, waiting to be called back, outstanding, or queued *)
+Definition cnt (c : Z) (m : mstate) : nat :=
+  (n_callbacks c (m_tr m) + occurrences c (map fst (b_cbs (m_b m)))
+   + occurrences c (map e_cmd (b_out (m_b m))) + occurrences c (ids (b_queue (m_b m))))%nat.
+
+Lemma astep_cnt : forall cf m m' c, astep cf m m' -> cnt c m' = cnt c m.
+Proof.
+  intros cf m m' c H. inversion H; subst; unfold cnt; cbn [m_tr m_b b_cbs b_out b_queue BS].
+  - (* send *) rewrite n_callbacks_snoc. cbn [is_callback_of ind]. rewrite map_app, occurrences_app.
+    cbn [map new_entry e_cmd ids]. rewrite !occurrences_cons, occurrences_nil. fold (ids q). lia.
+  - reflexivity.
+  - (* callback *) rewrite n_callbacks_snoc. cbn [is_callback_of map fst]. rewrite occurrences_cons. lia.
+  - rewrite n_callbacks_snoc. cbn [is_callback_of ind]. lia.
+  - reflexivity.
+  - (* recv hit *) rewrite n_callbacks_snoc. cbn [is_callback_of ind].
+    rewrite map_app, occurrences_app. cbn [map fst]. rewrite occurrences_cons, occurrences_nil.
+    match goal with Hf : find_entry _ _ = Some _ |- _ => rewrite (remove_entry_occ c _ _ _ Hf) end. lia.
+  - rewrite n_callbacks_snoc. cbn [is_callback_of ind]. lia.
+  - (* resend *) rewrite n_callbacks_snoc. cbn [is_callback_of ind]. rewrite map_bump_cmd. lia.
+Qed.
+
+Definition unanswered_entry (tr : list output) (e : entry) : Prop :=
+  exists pre tx t post,
+    tr = pre ++ OSend tx (e_cmd e) (e_seq e) t :: post /\ n_sends (e_cmd e) pre = 0%nat /\
+    forall d, In (ORecv d) post -> d_rc d = rc_ok -> d_seq d <> e_seq e.
+
+Record Inv (cf : config) (cmds : list cmd) (m : mstate) : Prop := {
+  I_count : forall c, cnt c m = occurrences c (ids cmds);
+  I_flag : b_queued (m_b m) = false -> b_queue (m_b m) = [];
+  I_suffix : exists done, cmds = done ++ b_queue (m_b m);
+  I_tries : forall e, In e (b_out (m_b m)) ->
+              Z.of_nat (n_sends (e_cmd e) (m_tr m)) = e_tries e /\ 1 <= e_tries e <= cf_tries cf;
+  I_unsent : forall c, In c (ids (b_queue (m_b m))) -> n_sends c (m_tr m) = 0%nat;
+  I_bound : forall c, Z.of_nat (n_sends c (m_tr m)) <= cf_tries cf;
+  I_last : forall e, In e (b_out (m_b m)) ->
+             last_send (e_cmd e) (m_tr m) = Some (e_deadline e - e_timeout e) /\
+             e_timeout e = cf_timeout cf + extra_of cmds (e_cmd e);
+  I_spaced : retransmissions_spaced cf cmds (m_tr m);
+  I_open : open_after (m_tr m) = map (fun e => (e_cmd e, e_seq e)) (b_out (m_b m));
+  I_seqs : NoDup (map e_seq (b_out (m_b m)));
+  I_window : window_respected (cf_window cf) (m_tr m);
+  I_len : Z.of_nat (length (b_out (m_b m))) <= cf_window cf;
+  I_unans : forall e, In e (b_out (m_b m)) -> unanswered_entry (m_tr m) e;
+  I_nofatal : forall d, In (ORecv d) (m_tr m) -> d_rc d = rc_ok \/ is_retryable (d_rc d) = true }.
+
+(* --- consequences of the conservation law when command identities are distinct *)
+Lemma total_le_1 : forall cmds c, NoDup (ids cmds) -> (occurrences c (ids cmds) <= 1)%nat.
+Proof. intros cmds c Hnd. unfold occurrences. apply (NoDup_count_occ Z.eq_dec). exact Hnd. Qed.
+
+Lemma D_queue_out : forall cf cmds m c, NoDup (ids cmds) -> Inv cf cmds m ->
+  In c (ids (b_queue (m_b m))) -> ~ In c (map e_cmd (b_out (m_b m))).
+Proof.
+  intros cf cmds m c Hnd HI Hq Ho. pose proof (I_count _ _ _ HI c) as Hc.
+  pose proof (total_le_1 cmds c Hnd) as Ht.
+  apply occurrences_In in Hq. apply occurrences_In in Ho. unfold cnt in Hc. lia.
+Qed.
+
+Lemma D_out_nodup : forall cf cmds m, NoDup (ids cmds) -> Inv cf cmds m -> NoDup (map e_cmd (b_out (m_b m))).
+Proof.
+  intros cf cmds m Hnd HI. apply (NoDup_count_occ Z.eq_dec). intros c.
+  pose proof (I_count _ _ _ HI c) as Hc. pose proof (total_le_1 cmds c Hnd) as Ht.
+  unfold cnt, occurrences in *. lia.
+Qed.
+
+Lemma D_queue_nodup : forall cf cmds m, NoDup (ids cmds) -> Inv cf cmds m -> NoDup (ids (b_queue (m_b m))).
+Proof.
+  intros cf cmds m Hnd HI. apply (NoDup_count_occ Z.eq_dec). intros c.
+  pose proof (I_count _ _ _ HI c) as Hc. pose proof (total_le_1 cmds c Hnd) as Ht.
+  unfold cnt, occurrences in *. lia.
+Qed.
+
+Lemma extra_of_suffix : forall done c q,
+  NoDup (ids (done ++ c :: q)) -> extra_of (done ++ c :: q) (c_id c) = c_extra c.
+Proof.
+  intros done c q Hnd. unfold extra_of.
+  induction done as [|x done IH].
+  - cbn [app find]. rewrite Z.eqb_refl. reflexivity.
+  - cbn [app find]. unfold ids in Hnd. cbn [app map] in Hnd.
+    inversion Hnd as [|y l Hnotin Hnd']; subst y l.
+    destruct (c_id x =? c_id c) eqn:E.
+    + apply Z.eqb_eq in E. exfalso. apply Hnotin. rewrite E, map_app. apply in_or_app. right. left. reflexivity.
+    + apply IH. exact Hnd'.
+Qed.
+
+(* --- how the trace predicates change when one output is appended *)
+Lemma last_send_app : forall c a b,
+  last_send c (a ++ b) = match last_send c b with Some t => Some t | None => last_send c a end.
+Proof.
+  intros c a b. induction a as [|o a IH]; cbn [app last_send].
+  - destruct (last_send c b); reflexivity.
+  - rewrite IH. destruct (last_send c b); reflexivity.
+Qed.
+
+Lemma last_send_snoc_other : forall c tr o, is_send_of c o = false -> last_send c (tr ++ [o]) = last_send c tr.
+Proof.
+  intros c tr o H. rewrite last_send_app. cbn [last_send].
+  destruct o as [tx c' s t| | |]; try reflexivity. cbn [is_send_of] in H. rewrite H. reflexivity.
+Qed.
+
+Lemma last_send_snoc_same : forall c tr tx s t, last_send c (tr ++ [OSend tx c s t]) = Some t.
+Proof. intros c tr tx s t. rewrite last_send_app. cbn [last_send]. rewrite Z.eqb_refl. reflexivity. Qed.
+
+Lemma last_send_none : forall c tr, n_sends c tr = 0%nat -> last_send c tr = None.
+Proof.
+  intros c tr. induction tr as [|o tr IH]; intros H.
+  - reflexivity.
+  - change (o :: tr) with ([o] ++ tr) in H. rewrite n_sends_app in H.
+    cbn [last_send]. rewrite IH by lia.
+    destruct o as [tx c' s t| | |]; try reflexivity.
+    unfold n_sends in H. cbn [filter is_send_of] in H. destruct (c' =? c); [cbn in H; lia|reflexivity].
+Qed.
+
+Lemma spaced_snoc : forall cf cmds tr o,
+  retransmissions_spaced cf cmds tr ->
+  (forall tx c s t t0, o = OSend tx c s t -> last_send c tr = Some t0 ->
+                       t0 + (cf_timeout cf + extra_of cmds c) < t) ->
+  retransmissions_spaced cf cmds (tr ++ [o]).
+Proof.
+  intros cf cmds tr o Hsp Hnew pre tx c s t post t0 Heq Hl.
+  apply snoc_split in Heq. destruct Heq as [(Hp & Hpre & Ho)|(post' & Hp & Htr)].
+  - subst pre o. apply (Hnew tx c s t t0 eq_refl Hl).
+  - apply (Hsp pre tx c s t post' t0 Htr Hl).
+Qed.
+
+Lemma open_after_snoc : forall tr o, open_after (tr ++ [o]) = open_step (open_after tr) o.
+Proof. intros tr o. unfold open_after. rewrite fold_left_app. reflexivity. Qed.
+
+Lemma window_snoc : forall w tr o,
+  window_respected w tr -> Z.of_nat (length (open_after (tr ++ [o]))) <= w ->
+  window_respected w (tr ++ [o]).
+Proof.
+  intros w tr o Hw Hn pre post Heq.
+  destruct post as [|x post].
+  - rewrite app_nil_r in Heq. subst pre. exact Hn.
+  - destruct (@exists_last _ (x :: post)) as (p' & b & Hp); [discriminate|].
+    rewrite Hp in Heq. rewrite app_assoc in Heq. apply app_inj_tail in Heq. destruct Heq as [H1 H2].
+    apply (Hw pre p'). exact H1.
+Qed.
+
+Lemma unanswered_snoc : forall tr o e,
+  unanswered_entry tr e ->
+  (forall d, o = ORecv d -> d_rc d = rc_ok -> d_seq d <> e_seq e) ->
+  unanswered_entry (tr ++ [o]) e.
+Proof.
+  intros tr o e (pre & tx & t & post & Heq & Hz & Hno) Ho.
+  exists pre, tx, t, (post ++ [o]). split; [|split].
+  - rewrite Heq. rewrite <- app_assoc. reflexivity.
+  - exact Hz.
+  - intros d Hin Hok. apply in_app_or in Hin. destruct Hin as [Hin|[Hin|[]]].
+    + apply Hno; assumption.
+    + apply Ho; [exact Hin|exact Hok].
+Qed.
+
+Lemma open_proj_filter_miss : forall s out,
+  (forall e, In e out -> e_seq e <> s) ->
+  filter (fun p : Z * Z => negb (snd p =? s)) (map (fun e => (e_cmd e, e_seq e)) out)
+  = map (fun e => (e_cmd e, e_seq e)) out.
+Proof.
+  intros s out. induction out as [|a out IH]; intros H; [reflexivity|].
+  cbn [map filter snd]. assert (Ha : e_seq a <> s) by (apply H; left; reflexivity).
+  apply Z.eqb_neq in Ha. rewrite Ha. cbn [negb]. f_equal. apply IH.
+  intros e Hin. apply H. right. exact Hin.
+Qed.
+
+Lemma open_proj_filter_hit : forall s out e,
+  NoDup (map e_seq out) -> find_entry s out = Some e ->
+  filter (fun p : Z * Z => negb (snd p =? s)) (map (fun e => (e_cmd e, e_seq e)) out)
+  = map (fun e => (e_cmd e, e_seq e)) (remove_entry s out).
+Proof.
+  intros s out. induction out as [|a out IH]; intros e Hnd Hf; cbn [find_entry] in Hf.
+  - discriminate Hf.
+  - cbn [map] in Hnd. inversion Hnd as [|x l Hnotin Hnd']; subst x l.
+    cbn [map filter snd remove_entry]. destruct (e_seq a =? s) eqn:E; cbn [negb].
+    + apply Z.eqb_eq in E.
+      apply open_proj_filter_miss. intros e' Hin Heq. apply Hnotin. rewrite E, <- Heq.
+      apply in_map. exact Hin.
+    + cbn [map]. f_equal. apply (IH e Hnd' Hf).
+Qed.
+
+Lemma open_proj_existsb : forall c out,
+  existsb (fun p : Z * Z => fst p =? c) (map (fun e => (e_cmd e, e_seq e)) out) = true <-> In c (map e_cmd out).
+Proof.
+  intros c out. rewrite existsb_exists. split.
+  - intros (p & Hin & Hp). apply in_map_iff in Hin. destruct Hin as (e & He & Hin). subst p.
+    cbn [fst] in Hp. apply Z.eqb_eq in Hp. subst c. apply in_map. exact Hin.
+  - intros Hin. apply in_map_iff in Hin. destruct Hin as (e & He & Hin).
+    exists (e_cmd e, e_seq e). split.
+    + apply in_map_iff. exists e. split; [reflexivity|exact Hin].
+    + cbn [fst]. apply Z.eqb_eq. exact He.
+Qed.
+
+Lemma free_seq_spec : forall fuel s0 out s s',
+  free_seq fuel s0 out = Some (s, s') -> find_entry s out = None /\ s' = seq_next s.
+Proof.
+  intros fuel. induction fuel as [|f IH]; intros s0 out s s' H; cbn [free_seq] in H.
+  - discriminate H.
+  - unfold seq_taken in H. destruct (find_entry s0 out) eqn:E.
+    + apply (IH _ _ _ _ H).
+    + inversion H; subst. split; [exact E|reflexivity].
+Qed.
+
+(* --- preservation of the invariant by every small step *)
+
+Lemma in_recv_snoc : forall tr o d, In (ORecv d) (tr ++ [o]) -> In (ORecv d) tr \/ o = ORecv d.
+Proof. intros tr o d H. apply in_app_or in H. destruct H as [H|[H|[]]]; [left; exact H|right; exact H]. Qed.
+
+(* appending an output that is neither a send nor a receive, the table of outstanding commands and the queue
+   being unchanged *)
+Lemma inv_quiet : forall cf cmds tr k k' b b' o,
+  Inv cf cmds (MS tr k b) ->
+  (forall c, is_send_of c o = false) -> (forall d, o <> ORecv d) ->
+  open_step (open_after tr) o = open_after tr ->
+  b_out b' = b_out b -> b_queue b' = b_queue b -> b_queued b' = b_queued b ->
+  (forall c, cnt c (MS (tr ++ [o]) k' b') = cnt c (MS tr k b)) ->
+  Inv cf cmds (MS (tr ++ [o]) k' b').
+Proof.
+  intros cf cmds tr k k' b b' o HI Hns Hnr Hop Hout Hq Hqd Hcnt.
+  destruct HI as [Ic If Is It Iu Ib Il Isp Io Isq Iw Iln Iun Inf].
+  cbn [m_tr m_b] in *.
+  constructor; cbn [m_tr m_b]; rewrite ?Hout, ?Hq, ?Hqd.
+  - intros c. rewrite Hcnt. apply Ic.
+  - exact If.
+  - exact Is.
+  - intros e He. rewrite n_sends_snoc, Hns. cbn [ind]. rewrite Nat.add_0_r. apply It. exact He.
+  - intros c Hc. rewrite n_sends_snoc, Hns. cbn [ind]. rewrite Nat.add_0_r. apply Iu. exact Hc.
+  - intros c. rewrite n_sends_snoc, Hns. cbn [ind]. rewrite Nat.add_0_r. apply Ib.
+  - intros e He. rewrite last_send_snoc_other by apply Hns. apply Il. exact He.
+  - apply spaced_snoc; [exact Isp|]. intros tx c s t t0 Ho. exfalso.
+    specialize (Hns c). subst o. cbn [is_send_of] in Hns. rewrite Z.eqb_refl in Hns. discriminate Hns.
+  - rewrite open_after_snoc, Hop. exact Io.
+  - exact Isq.
+  - apply window_snoc; [exact Iw|]. rewrite open_after_snoc, Hop, Io, map_length. exact Iln.
+  - exact Iln.
+  - intros e He. apply unanswered_snoc; [apply Iun; exact He|]. intros d Hd. exfalso. apply (Hnr d Hd).
+  - intros d Hd. apply in_recv_snoc in Hd. destruct Hd as [Hd|Hd]; [apply Inf; exact Hd|exfalso; apply (Hnr d Hd)].
+Qed.
+
+
+Lemma nodup_snoc : forall (l : list Z) x, NoDup l -> ~ In x l -> NoDup (l ++ [x]).
+Proof.
+  intros l x. induction l as [|a l IH]; intros Hnd Hx.
+  - constructor; [intros []|constructor].
+  - inversion Hnd as [|y l' Hn Hnd']; subst y l'. cbn [app]. constructor.
+    + intros Hin. apply in_app_or in Hin. destruct Hin as [Hin|[Hin|[]]].
+      * apply Hn. exact Hin.
+      * apply Hx. left. symmetry. exact Hin.
+    + apply IH; [exact Hnd'|]. intros Hin. apply Hx. right. exact Hin.
+Qed.
+
+Lemma in_bump2 : forall pre e post now x,
+  In x (pre ++ bump e now :: post) -> x = bump e now \/ In x (pre ++ post).
+Proof.
+  intros pre e post now x H. apply in_app_or in H. destruct H as [H|[H|H]].
+  - right. apply in_or_app. left. exact H.
+  - left. symmetry. exact H.
+  - right. apply in_or_app. right. exact H.
+Qed.
+
+Lemma in_mid_weaken : forall {A} (pre post : list A) e x, In x (pre ++ post) -> In x (pre ++ e :: post).
+Proof.
+  intros A pre post e x H. apply in_app_or in H. apply in_or_app.
+  destruct H as [H|H]; [left; exact H|right; right; exact H].
+Qed.
+
+Lemma nodup_mid_neq : forall (f : entry -> Z) pre e post x,
+  NoDup (map f (pre ++ e :: post)) -> In x (pre ++ post) -> f x <> f e.
+Proof.
+  intros f pre e post x Hnd Hin Heq. rewrite map_app in Hnd. cbn [map] in Hnd.
+  apply NoDup_remove_2 in Hnd. apply Hnd. rewrite <- map_app, <- Heq. apply in_map. exact Hin.
+Qed.
+
+Lemma send_other : forall c c' tx s t, c' <> c -> is_send_of c (OSend tx c' s t) = false.
+Proof. intros c c' tx s t H. cbn [is_send_of]. apply Z.eqb_neq. exact H. Qed.
+
+Lemma send_same : forall c tx s t, is_send_of c (OSend tx c s t) = true.
+Proof. intros. cbn [is_send_of]. apply Z.eqb_refl. Qed.
+
+Theorem astep_inv : forall cf cmds m m',
+  config_ok cf -> NoDup (ids cmds) -> Inv cf cmds m -> astep cf m m' -> Inv cf cmds m'.
+Proof.
+  intros cf cmds m m' Hcf Hnd HI Hst.
+  assert (Hcnt : forall c, cnt c m' = occurrences c (ids cmds)).
+  { intros c. rewrite (astep_cnt cf m m' c Hst). apply (I_count _ _ _ HI). }
+  destruct Hcf as [[Hw1 Hw2] Ht1].
+  inversion Hst; subst.
+  - (* ---------------------------------------------------------------- first transmission *)
+    rename H into Hwin, H0 into Hfs.
+    pose proof (D_queue_out cf cmds _ (c_id c) Hnd HI) as F1. cbn [m_b b_queue b_out BS ids map] in F1.
+    specialize (F1 (or_introl eq_refl)).
+    pose proof (D_queue_nodup cf cmds _ Hnd HI) as F2. cbn [m_b b_queue BS ids map] in F2.
+    inversion F2 as [|x l F2a F2b]; subst x l. fold (ids q) in F2a, F2b.
+    pose proof (I_unsent _ _ _ HI (c_id c)) as F3. cbn [m_b b_queue m_tr BS ids map] in F3.
+    specialize (F3 (or_introl eq_refl)).
+    destruct (free_seq_spec _ _ _ _ _ Hfs) as [F4 _].
+    destruct (I_suffix _ _ _ HI) as [done Hdone]. cbn [m_b b_queue BS] in Hdone.
+    assert (F5 : extra_of cmds (c_id c) = c_extra c).
+    { rewrite Hdone. apply extra_of_suffix. rewrite <- Hdone. exact Hnd. }
+    destruct HI as [Ic If Is It Iu Ib Il Isp Io Isq Iw Iln Iun Inf].
+    cbn [m_tr m_b b_out b_queue b_queued b_cbs BS] in *.
+    constructor; cbn [m_tr m_b b_out b_queue b_queued b_cbs BS].
+    + exact Hcnt.
+    + intros H; discriminate H.
+    + exists (done ++ [c]). rewrite <- app_assoc. exact Hdone.
+    + intros e He. apply in_app_or in He. destruct He as [He|[He|[]]].
+      * rewrite n_sends_snoc, send_other, Nat.add_0_r; [apply It; exact He|].
+        intros Heq. apply F1. rewrite Heq. apply in_map. exact He.
+      * subst e. cbn [new_entry e_cmd e_tries]. rewrite n_sends_snoc, send_same, F3. cbn. lia.
+    + intros c' Hc'. rewrite n_sends_snoc, send_other, Nat.add_0_r.
+      * apply Iu. right. exact Hc'.
+      * intros Heq. apply F2a. rewrite Heq. exact Hc'.
+    + intros c'. rewrite n_sends_snoc. destruct (Z.eq_dec (c_id c) c') as [E|E].
+      * subst c'. rewrite send_same, F3. cbn. lia.
+      * rewrite send_other by exact E. rewrite Nat.add_0_r. apply Ib.
+    + intros e He. apply in_app_or in He. destruct He as [He|[He|[]]].
+      * rewrite last_send_snoc_other; [apply Il; exact He|]. apply send_other.
+        intros Heq. apply F1. rewrite Heq. apply in_map. exact He.
+      * subst e. cbn [new_entry e_cmd e_deadline e_timeout]. rewrite last_send_snoc_same. split.
+        -- f_equal. lia.
+        -- rewrite F5. reflexivity.
+    + apply spaced_snoc; [exact Isp|]. intros tx c0 s0 t t0 Ho Hl. inversion Ho; subst.
+      rewrite (last_send_none _ _ F3) in Hl. discriminate Hl.
+    + rewrite open_after_snoc, Io. cbn [open_step].
+      destruct (existsb (fun p : Z * Z => fst p =? c_id c) (map (fun e => (e_cmd e, e_seq e)) out)) eqn:Ex.
+      * exfalso. apply F1. apply open_proj_existsb. exact Ex.
+      * rewrite map_app. reflexivity.
+    + rewrite map_app. cbn [map new_entry e_seq]. apply nodup_snoc; [exact Isq|].
+      intros Hin. apply in_map_iff in Hin. destruct Hin as (e & He & Hin).
+      apply (find_entry_none _ _ F4 e Hin He).
+    + apply window_snoc; [exact Iw|]. rewrite open_after_snoc, Io. cbn [open_step].
+      destruct (existsb (fun p : Z * Z => fst p =? c_id c) (map (fun e => (e_cmd e, e_seq e)) out)) eqn:Ex.
+      * rewrite map_length. lia.
+      * rewrite app_length, map_length. cbn [length]. lia.
+    + rewrite app_length. cbn [length]. lia.
+    + intros e He. apply in_app_or in He. destruct He as [He|[He|[]]].
+      * apply unanswered_snoc; [apply Iun; exact He|]. intros d Hd. discriminate Hd.
+      * subst e. exists tr, (k_ntx k), (k_now k), []. cbn [new_entry e_cmd e_seq].
+        split; [reflexivity|]. split; [exact F3|]. intros d [].
+    + intros d Hd. apply in_recv_snoc in Hd. destruct Hd as [Hd|Hd]; [apply Inf; exact Hd|discriminate Hd].
+  - (* ---------------------------------------------------------------- iterator exhausted *)
+    destruct HI as [Ic If Is It Iu Ib Il Isp Io Isq Iw Iln Iun Inf].
+    cbn [m_tr m_b b_out b_queue b_queued b_cbs BS] in *.
+    constructor; cbn [m_tr m_b b_out b_queue b_queued b_cbs BS]; try assumption.
+    intros _. reflexivity.
+  - (* ---------------------------------------------------------------- callback *)
+    apply (inv_quiet cf cmds tr k k (BS q qd out ((c, d) :: cbs)) (BS q qd out cbs) (OCallback c d) HI);
+      try reflexivity.
+    + intros d0 H. discriminate H.
+    + intros c0. rewrite <- (astep_cnt cf _ _ c0 Hst). reflexivity.
+  - (* ---------------------------------------------------------------- select *)
+    apply (inv_quiet cf cmds tr k k b b (OSelect t) HI); try reflexivity.
+    + intros d0 H. discriminate H.
+    + intros c0. rewrite <- (astep_cnt cf _ _ c0 Hst). reflexivity.
+  - (* ---------------------------------------------------------------- event *)
+    destruct HI as [Ic If Is It Iu Ib Il Isp Io Isq Iw Iln Iun Inf].
+    constructor; cbn [m_tr m_b] in *; try assumption.
+  - (* ---------------------------------------------------------------- reply accepted *)
+    rename H into Hbuf, H0 into Hok, H1 into Hfe.
+    destruct HI as [Ic If Is It Iu Ib Il Isp Io Isq Iw Iln Iun Inf].
+    cbn [m_tr m_b b_out b_queue b_queued b_cbs BS] in *.
+    constructor; cbn [m_tr m_b b_out b_queue b_queued b_cbs BS].
+    + exact Hcnt.
+    + exact If.
+    + exact Is.
+    + intros e0 He. apply remove_entry_In in He. rewrite n_sends_snoc. cbn [is_send_of ind].
+      rewrite Nat.add_0_r. apply It. exact He.
+    + intros c0 Hc. rewrite n_sends_snoc. cbn [is_send_of ind]. rewrite Nat.add_0_r. apply Iu. exact Hc.
+    + intros c0. rewrite n_sends_snoc. cbn [is_send_of ind]. rewrite Nat.add_0_r. apply Ib.
+    + intros e0 He. apply remove_entry_In in He. rewrite last_send_snoc_other by reflexivity. apply Il. exact He.
+    + apply spaced_snoc; [exact Isp|]. intros tx c0 s0 t t0 Ho. discriminate Ho.
+    + rewrite open_after_snoc, Io. cbn [open_step]. apply Z.eqb_eq in Hok. rewrite Hok.
+      apply (open_proj_filter_hit _ _ e Isq Hfe).
+    + apply remove_entry_seqs_nodup. exact Isq.
+    + apply window_snoc; [exact Iw|]. rewrite open_after_snoc, Io. cbn [open_step].
+      apply Z.eqb_eq in Hok. rewrite Hok. rewrite (open_proj_filter_hit _ _ e Isq Hfe), map_length.
+      pose proof (remove_entry_length (d_seq d) out). lia.
+    + pose proof (remove_entry_length (d_seq d) out). lia.
+    + intros e0 He. apply unanswered_snoc; [apply Iun; apply (remove_entry_In _ _ _ He)|].
+      intros d0 Hd _. inversion Hd; subst d0. intros Heq. apply (remove_entry_seq _ _ _ Isq He). symmetry. exact Heq.
+    + intros d0 Hd. apply in_recv_snoc in Hd. destruct Hd as [Hd|Hd]; [apply Inf; exact Hd|].
+      inversion Hd; subst d0. left. exact Hok.
+  - (* ---------------------------------------------------------------- datagram ignored *)
+    rename H into Hbuf, H0 into Hwhy.
+    destruct HI as [Ic If Is It Iu Ib Il Isp Io Isq Iw Iln Iun Inf].
+    cbn [m_tr m_b] in *.
+    assert (Hop : open_step (open_after tr) (ORecv d) = open_after tr).
+    { cbn [open_step]. destruct Hwhy as [[Hok Hnone]|[Hnok _]].
+      - apply Z.eqb_eq in Hok. rewrite Hok, Io. apply open_proj_filter_miss. apply find_entry_none. exact Hnone.
+      - apply Z.eqb_neq in Hnok. rewrite Hnok. reflexivity. }
+    constructor; cbn [m_tr m_b].
+    + exact Hcnt.
+    + exact If.
+    + exact Is.
+    + intros e0 He. rewrite n_sends_snoc. cbn [is_send_of ind]. rewrite Nat.add_0_r. apply It. exact He.
+    + intros c0 Hc. rewrite n_sends_snoc. cbn [is_send_of ind]. rewrite Nat.add_0_r. apply Iu. exact Hc.
+    + intros c0. rewrite n_sends_snoc. cbn [is_send_of ind]. rewrite Nat.add_0_r. apply Ib.
+    + intros e0 He. rewrite last_send_snoc_other by reflexivity. apply Il. exact He.
+    + apply spaced_snoc; [exact Isp|]. intros tx c0 s0 t t0 Ho. discriminate Ho.
+    + rewrite open_after_snoc, Hop. exact Io.
+    + exact Isq.
+    + apply window_snoc; [exact Iw|]. rewrite open_after_snoc, Hop, Io, map_length. exact Iln.
+    + exact Iln.
+    + intros e0 He. apply unanswered_snoc; [apply Iun; exact He|].
+      intros d0 Hd Hok0. inversion Hd; subst d0. destruct Hwhy as [[Hok Hnone]|[Hnok _]].
+      * intros Heq. apply (find_entry_none _ _ Hnone e0 He). symmetry. exact Heq.
+      * contradiction.
+    + intros d0 Hd. apply in_recv_snoc in Hd. destruct Hd as [Hd|Hd]; [apply Inf; exact Hd|].
+      inversion Hd; subst d0. destruct Hwhy as [[Hok _]|[_ Hre]]; [left; exact Hok|right; exact Hre].
+  - (* ---------------------------------------------------------------- retransmission *)
+    rename H into Hdl, H0 into Htr.
+    pose proof (D_out_nodup cf cmds _ Hnd HI) as Fnd. cbn [m_b b_out BS] in Fnd.
+    assert (Fq : forall c0, In c0 (ids q) -> c0 <> e_cmd e).
+    { intros c0 Hc Heq. apply (D_queue_out cf cmds _ c0 Hnd HI Hc). cbn [m_b b_out BS].
+      rewrite Heq. apply in_map. apply in_or_app. right. left. reflexivity. }
+    assert (Fe : In e (pre ++ e :: post)) by (apply in_or_app; right; left; reflexivity).
+    destruct HI as [Ic If Is It Iu Ib Il Isp Io Isq Iw Iln Iun Inf].
+    cbn [m_tr m_b b_out b_queue b_queued b_cbs BS] in *.
+    destruct (It e Fe) as [Hte [Hte1 Hte2]].
+    destruct (Il e Fe) as [Hle Hto].
+    constructor; cbn [m_tr m_b b_out b_queue b_queued b_cbs BS].
+    + exact Hcnt.
+    + exact If.
+    + exact Is.
+    + intros x Hx. apply in_bump2 in Hx. destruct Hx as [Hx|Hx].
+      * subst x. cbn [bump e_cmd e_tries]. rewrite n_sends_snoc, send_same. cbn [ind]. lia.
+      * rewrite n_sends_snoc, send_other, Nat.add_0_r.
+        -- apply It. apply in_mid_weaken. exact Hx.
+        -- intros Heq. apply (nodup_mid_neq e_cmd pre e post x Fnd Hx). symmetry. exact Heq.
+    + intros c0 Hc. rewrite n_sends_snoc, send_other, Nat.add_0_r; [apply Iu; exact Hc|].
+      intros Heq. apply (Fq c0 Hc). symmetry. exact Heq.
+    + intros c0. rewrite n_sends_snoc. destruct (Z.eq_dec (e_cmd e) c0) as [E|E].
+      * subst c0. rewrite send_same. cbn [ind]. lia.
+      * rewrite send_other by exact E. rewrite Nat.add_0_r. apply Ib.
+    + intros x Hx. apply in_bump2 in Hx. destruct Hx as [Hx|Hx].
+      * subst x. cbn [bump e_cmd e_deadline e_timeout]. rewrite last_send_snoc_same. split; [f_equal; lia|exact Hto].
+      * rewrite last_send_snoc_other.
+        -- apply Il. apply in_mid_weaken. exact Hx.
+        -- apply send_other. intros Heq. apply (nodup_mid_neq e_cmd pre e post x Fnd Hx). symmetry. exact Heq.
+    + apply spaced_snoc; [exact Isp|]. intros tx c0 s0 t t0 Ho Hl. inversion Ho; subst.
+      rewrite Hle in Hl. inversion Hl; subst t0. rewrite <- Hto. lia.
+    + rewrite open_after_snoc, Io. cbn [open_step].
+      destruct (existsb (fun p : Z * Z => fst p =? e_cmd e) (map (fun e0 => (e_cmd e0, e_seq e0)) (pre ++ e :: post))) eqn:Ex.
+      * rewrite !map_app. reflexivity.
+      * exfalso. assert (Hin : In (e_cmd e) (map e_cmd (pre ++ e :: post))) by (apply in_map; exact Fe).
+        apply open_proj_existsb in Hin. rewrite Hin in Ex. discriminate Ex.
+    + rewrite map_bump_seq. exact Isq.
+    + apply window_snoc; [exact Iw|]. rewrite open_after_snoc, Io. cbn [open_step].
+      destruct (existsb (fun p : Z * Z => fst p =? e_cmd e) (map (fun e0 => (e_cmd e0, e_seq e0)) (pre ++ e :: post))) eqn:Ex.
+      * rewrite map_length. exact Iln.
+      * exfalso. assert (Hin : In (e_cmd e) (map e_cmd (pre ++ e :: post))) by (apply in_map; exact Fe).
+        apply open_proj_existsb in Hin. rewrite Hin in Ex. discriminate Ex.
+    + rewrite app_length in *. cbn [length] in *. exact Iln.
+    + intros x Hx. apply in_bump2 in Hx. destruct Hx as [Hx|Hx].
+      * subst x. apply unanswered_snoc; [|intros d0 Hd; discriminate Hd].
+        destruct (Iun e Fe) as (p1 & tx & t & p2 & H1 & H2 & H3).
+        exists p1, tx, t, p2. cbn [bump e_cmd e_seq]. repeat split; assumption.
+      * apply unanswered_snoc; [apply Iun; apply in_mid_weaken; exact Hx|]. intros d0 Hd. discriminate Hd.
+    + intros d Hd. apply in_recv_snoc in Hd. destruct Hd as [Hd|Hd]; [apply Inf; exact Hd|discriminate Hd].
+Qed.
+
+Lemma star_inv : forall cf cmds m m',
+  config_ok cf -> NoDup (ids cmds) -> star cf m m' -> Inv cf cmds m -> Inv cf cmds m'.
+Proof.
+  intros cf cmds m m' Hcf Hnd Hst. induction Hst as [m|m1 m2 m3 H12 H23 IH]; intros HI.
+  - exact HI.
+  - apply IH. apply (astep_inv cf cmds m1 m2 Hcf Hnd HI H12).
+Qed.
+
+Lemma inv_init : forall cf cmds k, config_ok cf -> Inv cf cmds (MS [] k (bstate0 cmds)).
+Proof.
+  intros cf cmds k [[Hw1 Hw2] Ht]. assert (Hw : 0 <= cf_window cf) by lia. constructor; cbn [m_tr m_b bstate0 b_out b_queue b_queued b_cbs].
+  - intros c. unfold cnt. cbn [m_tr m_b bstate0 b_out b_queue b_queued b_cbs map]. reflexivity.
+  - intros H; discriminate H.
+  - exists []. reflexivity.
+  - intros e [].
+  - intros c _. reflexivity.
+  - intros c. cbn. lia.
+  - intros e [].
+  - intros pre tx c s t post t0 H. destruct pre; discriminate H.
+  - reflexivity.
+  - constructor.
+  - intros pre post H. destruct pre; [cbn; exact Hw|discriminate H].
+  - cbn. exact Hw.
+  - intros e [].
+  - intros d [].
+Qed.
+
+(* every call: the final small-step state satisfies the invariant *)
+Lemma burst_inv : forall cf cmds evs k tr oc k' rest,
+  config_ok cf -> NoDup (ids cmds) ->
+  burst cf cmds evs k = (tr, oc, k', rest) ->
+  exists m, Inv cf cmds m /\ ends cf oc tr m.
+Proof.
+  intros cf cmds evs k tr oc k' rest Hcf Hnd Hb. unfold burst in Hb.
+  destruct (run_refines cf evs k (bstate0 cmds) [] tr oc k' rest Hb) as (m & Hst & Hend).
+  exists m. split; [|exact Hend].
+  apply (star_inv cf cmds _ m Hcf Hnd Hst). apply inv_init. exact Hcf.
+Qed.
+
+(* ------------------------------------------------------------------------------------------------ *)
+(* Part 4: the theorems on the call's own trace                                                       *)
+(* ------------------------------------------------------------------------------------------------ *)
+
+Lemma ends_trace : forall cf oc tr m, ends cf oc tr m -> tr = m_tr m \/ exists d, tr = m_tr m ++ [ORecv d].
+Proof. intros cf oc tr m H. inversion H; subst; try (left; reflexivity). right. exists d. reflexivity. Qed.
+
+(* --- conservation alone (no hypothesis on the command identities or the configuration) *)
+Definition flag_ok (m : mstate) : Prop := b_queued (m_b m) = false -> b_queue (m_b m) = [].
+
+Lemma astep_flag : forall cf m m', astep cf m m' -> flag_ok m -> flag_ok m'.
+Proof.
+  intros cf m m' H Hf. unfold flag_ok in *. inversion H; subst; cbn [m_b b_queued b_queue BS] in *;
+    try exact Hf; try (intros E; discriminate E).
+  intros _. reflexivity.
+Qed.
+
+Lemma star_cnt_flag : forall cf m m' c, star cf m m' -> flag_ok m -> cnt c m' = cnt c m /\ flag_ok m'.
+Proof.
+  intros cf m m' c H. induction H as [m|m1 m2 m3 H12 H23 IH]; intros Hf.
+  - split; [reflexivity|exact Hf].
+  - destruct (IH (astep_flag cf m1 m2 H12 Hf)) as [E F]. split; [|exact F].
+    rewrite E. apply (astep_cnt cf m1 m2 c H12).
+Qed.
+
+Lemma cnt_init : forall cmds k c, cnt c (MS [] k (bstate0 cmds)) = occurrences c (ids cmds).
+Proof. intros. unfold cnt. cbn [m_tr m_b bstate0 b_out b_queue b_queued b_cbs map]. reflexivity. Qed.
+
+Lemma burst_cnt : forall cf cmds evs k tr oc k' rest,
+  burst cf cmds evs k = (tr, oc, k', rest) ->
+  exists m, ends cf oc tr m /\ flag_ok m /\ forall c, cnt c m = occurrences c (ids cmds).
+Proof.
+  intros cf cmds evs k tr oc k' rest Hb. unfold burst in Hb.
+  destruct (run_refines cf evs k (bstate0 cmds) [] tr oc k' rest Hb) as (m & Hst & Hend).
+  exists m. split; [exact Hend|].
+  assert (F0 : flag_ok (MS [] k (bstate0 cmds))) by (intros E; discriminate E).
+  split.
+  - apply (star_cnt_flag cf _ m 0 Hst F0).
+  - intros c. destruct (star_cnt_flag cf _ m c Hst F0) as [E _]. rewrite E. apply cnt_init.
+Qed.
+
+(* completion: a call that returns has invoked the callback of every command exactly once *)
+Theorem completion : forall cf cmds evs k tr k' rest,
+  burst cf cmds evs k = (tr, Returned, k', rest) ->
+  forall c, n_callbacks c tr = occurrences c (ids cmds).
+Proof.
+  intros cf cmds evs k tr k' rest Hb c.
+  destruct (burst_cnt cf cmds evs k tr Returned k' rest Hb) as (m & Hend & Hf & Hc).
+  inversion Hend as [m0 Hrun| | | |]; subst.
+  - rewrite <- (Hc c). unfold cnt. unfold running in Hrun.
+    destruct (b_queued (m_b m)) eqn:Eq; [discriminate Hrun|].
+    destruct (b_out (m_b m)) eqn:Eo; [|discriminate Hrun].
+    destruct (b_cbs (m_b m)) eqn:Ec; [|discriminate Hrun].
+    rewrite (Hf Eq). cbn. lia.
+  - exfalso. match goal with E : fatal_outcome _ _ = Returned |- _ => unfold fatal_outcome in E;
+      destruct (existsb _ all_return_codes && negb (existsb _ fatal_codes)); discriminate E end.
+Qed.
+
+(* whatever the outcome, no callback is invoked more often than its command occurs in the burst *)
+Theorem callback_at_most_once : forall cf cmds evs k tr oc k' rest,
+  burst cf cmds evs k = (tr, oc, k', rest) ->
+  forall c, (n_callbacks c tr <= occurrences c (ids cmds))%nat.
+Proof.
+  intros cf cmds evs k tr oc k' rest Hb c.
+  destruct (burst_cnt cf cmds evs k tr oc k' rest Hb) as (m & Hend & Hf & Hc).
+  rewrite <- (Hc c). unfold cnt.
+  destruct (ends_trace cf oc tr m Hend) as [E|[d E]]; subst tr.
+  - lia.
+  - rewrite n_callbacks_snoc. cbn [is_callback_of ind]. lia.
+Qed.
+
+(* --- return codes: the generated tables are consistent *)
+Lemma fatal_outcome_fatal : forall rc c, fatal_rc rc -> fatal_outcome rc c = RaisedFatal rc c.
+Proof.
+  intros rc c [Hnok Hnre]. unfold fatal_outcome.
+  destruct (existsb (Z.eqb rc) all_return_codes) eqn:Ek; [|reflexivity].
+  apply existsb_exists in Ek. destruct Ek as (x & Hin & Hx). apply Z.eqb_eq in Hx. subst x.
+  cbn [all_return_codes In] in Hin.
+  repeat (destruct Hin as [Hin|Hin];
+          [subst rc; first [exfalso; apply Hnok; reflexivity
+                           |vm_compute in Hnre; discriminate Hnre
+                           |vm_compute; reflexivity]|]).
+  contradiction.
+Qed.
+
+(* --- no fatal code among the datagrams consumed before the last small-step state *)
+Definition nofatal (m : mstate) : Prop :=
+  forall d, In (ORecv d) (m_tr m) -> d_rc d = rc_ok \/ is_retryable (d_rc d) = true.
+
+Lemma astep_nofatal : forall cf m m', astep cf m m' -> nofatal m -> nofatal m'.
+Proof.
+  intros cf m m' H Hn. unfold nofatal in *. inversion H; subst; cbn [m_tr] in *; try exact Hn;
+    intros d0 Hd; apply in_recv_snoc in Hd; destruct Hd as [Hd|Hd]; try (apply Hn; exact Hd);
+    try discriminate Hd.
+  - inversion Hd; subst d0. left. assumption.
+  - inversion Hd; subst d0.
+    match goal with Hw : _ \/ _ |- _ => destruct Hw as [[Hok _]|[_ Hre]] end; [left; exact Hok|right; exact Hre].
+Qed.
+
+Lemma star_nofatal : forall cf m m', star cf m m' -> nofatal m -> nofatal m'.
+Proof.
+  intros cf m m' H. induction H as [m|m1 m2 m3 H12 H23 IH]; intros Hn; [exact Hn|].
+  apply IH. apply (astep_nofatal cf m1 m2 H12 Hn).
+Qed.
+
+Lemma burst_nofatal : forall cf cmds evs k tr oc k' rest,
+  burst cf cmds evs k = (tr, oc, k', rest) ->
+  exists m, ends cf oc tr m /\ nofatal m.
+Proof.
+  intros cf cmds evs k tr oc k' rest Hb. unfold burst in Hb.
+  destruct (run_refines cf evs k (bstate0 cmds) [] tr oc k' rest Hb) as (m & Hst & Hend).
+  exists m. split; [exact Hend|]. apply (star_nofatal cf _ m Hst). intros d [].
+Qed.
+
+Lemma ends_not_fatal_trace : forall cf oc tr m,
+  ends cf oc tr m -> (forall rc c, oc <> fatal_outcome rc c) -> tr = m_tr m.
+Proof.
+  intros cf oc tr m H Hn. inversion H; subst; try reflexivity. exfalso. apply (Hn _ _ eq_refl).
+Qed.
+
+(* a fatal return code raises the fatal-return-code error, at once *)
+Theorem fatal_raises : forall cf cmds evs k tr oc k' rest,
+  burst cf cmds evs k = (tr, oc, k', rest) ->
+  forall d, In (ORecv d) tr -> fatal_rc (d_rc d) ->
+  exists tr1 c, tr = tr1 ++ [ORecv d] /\ oc = RaisedFatal (d_rc d) c /\
+                (forall d', In (ORecv d') tr1 -> ~ fatal_rc (d_rc d')).
+Proof.
+  intros cf cmds evs k tr oc k' rest Hb d Hin Hfat.
+  destruct (burst_nofatal cf cmds evs k tr oc k' rest Hb) as (m & Hend & Hnf).
+  assert (Hclean : forall d', In (ORecv d') (m_tr m) -> ~ fatal_rc (d_rc d')).
+  { intros d' Hd' [H1 H2]. destruct (Hnf d' Hd') as [E|E]; [contradiction|]. rewrite E in H2. discriminate H2. }
+  inversion Hend; subst; try (exfalso; apply (Hclean d Hin Hfat)).
+  apply in_recv_snoc in Hin. destruct Hin as [Hin|Hin]; [exfalso; apply (Hclean d Hin Hfat)|].
+  inversion Hin; subst d0.
+  exists (m_tr m), (option_map e_cmd (find_entry (d_seq d) (b_out (m_b m)))).
+  split; [reflexivity|]. split; [apply fatal_outcome_fatal; exact Hfat|exact Hclean].
+Qed.
+
+(* and that error is raised for no other reason *)
+Theorem fatal_only_from_datagram : forall cf cmds evs k tr rc c k' rest,
+  burst cf cmds evs k = (tr, RaisedFatal rc c, k', rest) ->
+  exists tr1 d, tr = tr1 ++ [ORecv d] /\ d_rc d = rc /\ fatal_rc rc.
+Proof.
+  intros cf cmds evs k tr rc c k' rest Hb.
+  destruct (burst_nofatal cf cmds evs k tr _ k' rest Hb) as (m & Hend & _).
+  inversion Hend as [| |m0 d buf Hbuf Hnok Hnre Hoc| |]; subst.
+  assert (Hf : fatal_rc (d_rc d)) by (split; assumption).
+  rewrite (fatal_outcome_fatal _ _ Hf) in Hoc. inversion Hoc; subst.
+  exists (m_tr m), d. repeat split; try reflexivity; assumption.
+Qed.
+
+(* FatalReturnCodeError can always be constructed: its KeyError branch is unreachable with these tables *)
+Theorem no_key_error : forall cf cmds evs k tr rc k' rest,
+  burst cf cmds evs k <> (tr, RaisedKeyError rc, k', rest).
+Proof.
+  intros cf cmds evs k tr rc k' rest Hb.
+  destruct (burst_nofatal cf cmds evs k tr _ k' rest Hb) as (m & Hend & _).
+  inversion Hend as [| |m0 d buf Hbuf Hnok Hnre Hoc| |]; subst.
+  assert (Hf : fatal_rc (d_rc d)) by (split; assumption).
+  rewrite (fatal_outcome_fatal _ _ Hf) in Hoc. discriminate Hoc.
+Qed.
+
+(* --- window, tries, spacing, the timeout error *)
+Lemma open_step_recv_length : forall op d, (length (open_step op (ORecv d)) <= length op)%nat.
+Proof.
+  intros op d. cbn [open_step]. destruct (d_rc d =? rc_ok); [|lia].
+  induction op as [|p op IH]; cbn [filter length]; [lia|].
+  destruct (negb (snd p =? d_seq d)); cbn [length]; lia.
+Qed.
+
+Theorem window_inv : forall cf cmds evs k tr oc k' rest,
+  config_ok cf -> NoDup (ids cmds) ->
+  burst cf cmds evs k = (tr, oc, k', rest) ->
+  window_respected (cf_window cf) tr.
+Proof.
+  intros cf cmds evs k tr oc k' rest Hcf Hnd Hb.
+  destruct (burst_inv cf cmds evs k tr oc k' rest Hcf Hnd Hb) as (m & HI & Hend).
+  destruct (ends_trace cf oc tr m Hend) as [E|[d E]]; subst tr.
+  - apply (I_window _ _ _ HI).
+  - apply window_snoc; [apply (I_window _ _ _ HI)|].
+    rewrite open_after_snoc. pose proof (open_step_recv_length (open_after (m_tr m)) d) as Hl.
+    rewrite (I_open _ _ _ HI) in *. rewrite map_length in Hl. pose proof (I_len _ _ _ HI). lia.
+Qed.
+
+Theorem tries_inv : forall cf cmds evs k tr oc k' rest,
+  config_ok cf -> NoDup (ids cmds) ->
+  burst cf cmds evs k = (tr, oc, k', rest) ->
+  (forall c, Z.of_nat (n_sends c tr) <= cf_tries cf) /\ retransmissions_spaced cf cmds tr.
+Proof.
+  intros cf cmds evs k tr oc k' rest Hcf Hnd Hb.
+  destruct (burst_inv cf cmds evs k tr oc k' rest Hcf Hnd Hb) as (m & HI & Hend).
+  destruct (ends_trace cf oc tr m Hend) as [E|[d E]]; subst tr.
+  - split; [apply (I_bound _ _ _ HI)|apply (I_spaced _ _ _ HI)].
+  - split.
+    + intros c. rewrite n_sends_snoc. cbn [is_send_of ind]. rewrite Nat.add_0_r. apply (I_bound _ _ _ HI).
+    + apply spaced_snoc; [apply (I_spaced _ _ _ HI)|]. intros tx c s t t0 H. discriminate H.
+Qed.
+
+Theorem timeout_exact : forall cf cmds evs k tr c k' rest,
+  config_ok cf -> NoDup (ids cmds) ->
+  burst cf cmds evs k = (tr, RaisedTimeout c, k', rest) ->
+  In c (ids cmds) /\ Z.of_nat (n_sends c tr) = cf_tries cf /\ never_answered c tr.
+Proof.
+  intros cf cmds evs k tr c k' rest Hcf Hnd Hb.
+  destruct (burst_inv cf cmds evs k tr _ k' rest Hcf Hnd Hb) as (m & HI & Hend).
+  inversion Hend as [|m0 pre e post Hout Hdl Htr Hc| m0 d buf Hbuf Hnok Hnre Hoc | |]; subst.
+  - assert (He : In e (b_out (m_b m))) by (rewrite Hout; apply in_or_app; right; left; reflexivity).
+    split; [|split].
+    + apply occurrences_In. rewrite <- (I_count _ _ _ HI (e_cmd e)). unfold cnt.
+      assert (H1 : (1 <= occurrences (e_cmd e) (map e_cmd (b_out (m_b m))))%nat).
+      { apply occurrences_In. apply in_map. exact He. }
+      lia.
+    + destruct (I_tries _ _ _ HI e He) as [H1 [H2 H3]]. lia.
+    + destruct (I_unans _ _ _ HI e He) as (p1 & tx & t & p2 & H1 & H2 & H3).
+      exists p1, tx, (e_seq e), t, p2. repeat split; assumption.
+  - exfalso. unfold fatal_outcome in Hoc.
+    destruct (existsb (Z.eqb (d_rc d)) all_return_codes && negb (existsb (Z.eqb (d_rc d)) fatal_codes));
+      discriminate Hoc.
 Qed.
